@@ -18,11 +18,11 @@ INFO = {
 }
 
 
-def h_dt(f, k, m, pastify=False, defs=None, style='sub', jitter=False, rounds=1):
+def h_dt(f, k, m, pastify=False, defs=None, style='sub', jitter=False, rounds=1, failing=False):
     f = T(f)
     defs_list = [(n, T(d)) for n, d in (defs or [])]
     full = inline(f, dict(defs_list))
-    vs = sorted(variables(full))
+    vs = sorted(set(variables(full)).union(*[variables(inline(d, dict(defs_list))) for _, d in defs_list]))     # also definitions the main formula does not use
 
     def mk():
         if defs_list:
@@ -40,6 +40,18 @@ def h_dt(f, k, m, pastify=False, defs=None, style='sub', jitter=False, rounds=1)
         else:
             tpre, tpost = list(range(k)), list(range(m))
         dt.online(a, pre, k, tpre)
+        if failing:
+            # an update() that raises part-way (division by exactly 0 after the stateful operators below it have been stepped) also belongs
+            # to "every sequence of updates fed before": reset() must still bring the monitor back to its initial state
+            try:
+                a.update(k, [(v, (0.0 if v == 'y' else 7.0)) for v in vs])
+            except ZeroDivisionError:
+                pass
+            except symx.PathAbort as e:
+                # on symbolic operands the executor ends a path at a division by zero; here the zero is the intended, concrete one and
+                # the real code raises ZeroDivisionError at this very point
+                if 'division by zero' not in str(getattr(e, 'reason', e)):
+                    raise
         a.reset()
         for rnd in range(1, rounds):
             # several reset() calls on the same object, each after more (symbolic) updates
@@ -47,8 +59,17 @@ def h_dt(f, k, m, pastify=False, defs=None, style='sub', jitter=False, rounds=1)
             dt.online(a, more, max(k, 1))
             a.reset()
         res = [('counter-zero', A.bool(a.sampling_violation_counter == 0))]
-        ga = dt.online(a, post, m, tpost)
-        gb = dt.online(b, post, m, tpost)
+        if defs_list and not jitter:
+            # named sub-specifications: their current values after the reset are those of the fresh monitor too (get_value)
+            ga, gb = [], []
+            for i in range(m):
+                ga.append(a.update(tpost[i], [(v, post[v][i]) for v in vs]))
+                gb.append(b.update(tpost[i], [(v, post[v][i]) for v in vs]))
+                for n, _ in defs_list:
+                    res.append(('fresh-get_value-%s@%d' % (n, i), A.eq(a.get_value(n), b.get_value(n))))
+        else:
+            ga = dt.online(a, post, m, tpost)
+            gb = dt.online(b, post, m, tpost)
         env.observe('after-reset', ga)
         res += dt.eq_list(A, 'fresh', ga, gb)
         res.append(('counter-equal', A.bool(a.sampling_violation_counter == b.sampling_violation_counter)))
@@ -140,6 +161,17 @@ def obligations(tier, rng):
         for f in [('leq', ('sub', X, g), C1), ('geq', g, Y), ('historically', ('leq', g, Y)), ('gt', ('add', ('abs', g), Y), C1), ('eq', Y, ('neg', g))]:
             for k in ([2] if quick else [1, 3]):
                 out.append(ob('C10', 'dt', 'dt/below-predicate/%s/k=%d' % (text(f), k), f=f, k=k, m=m))
+    # an update that fails part-way before the reset (division by exactly zero above stateful operators), also as the very first update
+    for g in [('prev', X), ('once', X), ('once_t', X, 0, 2), ('since', X, Z), ('historically_t', X, 1, 2)]:
+        for f in [('div', g, Y), ('geq', ('div', g, Y), ('const', 1.0))]:
+            for k in (0, 2):
+                out.append(ob('C10', 'dt', 'dt/failing-update/%s/k=%d' % (text(f), k), f=f, k=k, m=m, failing=True))
+    # assertions that the last assertion does NOT refer to: they are monitored too, and reset with everything else (seen through get_value)
+    for d in [('prev', X), ('once_t', X, 0, 2), ('since', X, Y), ('historically', X), ('rise', X)]:
+        for mn in [('geq', Z, ('const', 0.0)), ('once', Z)]:
+            for k in (1, 3):
+                out.append(ob('C10', 'dt', 'dt/unreferenced-subspec/p=%s/out=%s/k=%d' % (text(d), text(mn), k), f=mn, defs=[['p', d]], k=k, m=m, style='multi'))
+                out.append(ob('C10', 'dt', 'dt/unreferenced-subspec/p=%s/out=%s/k=%d/add_sub_spec' % (text(d), text(mn), k), f=mn, defs=[['p', d]], k=k, m=m, style='sub'))
     from .. import pool
     for i, g in enumerate(pool.ALL):
         fut = refsem.has_future(g)
